@@ -338,6 +338,12 @@ def proj_cases(draw, even_only=False):
             "seed": draw(SEEDS),
         }
     )
+    if g["M"] == 1:
+        # single-mode exit waves with EXACTLY zero Fourier coefficients (an empty pattern inside a batch, an all-zero
+        # wave, a constant wave): the projection still has to install the measured amplitudes there (seeded change
+        # C16-13: F/|F| instead of exp(i arg F)).  Not drawn for mixed states, whose magnitudes are rescaled by
+        # m/(T + 1e-9) and stay zero where the incoherent magnitude T is zero.
+        g["wave"] = draw(st.sampled_from(["random", "random", "one_zero_pattern", "all_zero", "constant"]))
     return g
 
 
@@ -966,6 +972,13 @@ def _check_proj(ctx, case):
     amp = float(case["amp"])
     rng = np.random.default_rng(case["seed"] + 2)
     x = _cplx(case["seed"], (M, N, R, C), amp, dtype)
+    wave = case.get("wave", "random")
+    if wave == "one_zero_pattern":
+        x[:, case["seed"] % N] = 0
+    elif wave == "all_zero":
+        x[...] = 0
+    elif wave == "constant":
+        x[...] = x[0, 0, 0, 0]
     # measured amplitudes: exact zeros or values in [max(1e-3*amp, 1e-7), 2*amp] (detector-centred, like
     # the data); the absolute floor keeps them well above the library's 1e-9 regulariser
     m = rng.uniform(max(1e-3, 1e-7 / amp), 2.0, (N, R, C)) * amp
@@ -973,7 +986,7 @@ def _check_proj(ctx, case):
     m[rng.random((N, R, C)) < zfrac] = 0.0
     m = m.astype(np.float32 if f32 else np.float64)
     has_zero = bool(np.any(m == 0))
-    classes = ["proj", "proj:M%d" % M, "proj:" + dtype, "proj:zeros_" + case["zeros"], "proj:scale_%g" % amp]
+    classes = ["proj", "proj:M%d" % M, "proj:" + dtype, "proj:zeros_" + case["zeros"], "proj:scale_%g" % amp, "proj:wave_" + wave]
     if M >= 2 and amp <= 1e-3:
         classes.append("proj:mixed_state_scale_le_1e-3")
     if R % 2 or C % 2:
